@@ -320,6 +320,12 @@ def cases(ctx):
         kinds = inames if tier == "thorough" else ["blocks", rng.choice(inames[1:])]
         for i in kinds:
             out.append(alias_case([t], i, rng.randint(0, 10 ** 6)))
+    # chains: at least one of the two steps keeps the size of the formula (a substitution of a substitution of wide
+    # clauses is exponentially large), the other one is anything
+    light = [n for n in names if n.startswith(("shuffle", "flip")) or n.endswith(("(1)", "(1,0)", "(1,1)"))]
     for _ in range(150 if tier == "thorough" else 25):
-        out.append(alias_case([rng.choice(names), rng.choice(names)], rng.choice(inames), rng.randint(0, 10 ** 6)))
+        pair = [rng.choice(names), rng.choice(light)]
+        if rng.random() < .5:
+            pair.reverse()
+        out.append(alias_case(pair, rng.choice(inames), rng.randint(0, 10 ** 6)))
     return out
